@@ -119,6 +119,13 @@ func c07ProbeBlank(t *testing.T, out *verifh.Out) {
 				out.Cover("probe.blank." + name + ".handler_ran")
 			}
 		}
+		if s != nil && use != 1 {
+			// like the generated histories: a stream whose first use failed is reset by the
+			// application before the scopes are looked at (whether NewStream itself already
+			// failed depends on the listener's reset racing its acknowledgement)
+			s.Reset()
+			s = nil
+		}
 		time.Sleep(20 * time.Millisecond)
 		var hreg, hl int64 = -1, -1
 		if ninv[p] > 0 {
